@@ -21,6 +21,9 @@ PROJECTION = "(stack: foreign layers run, #conditions evaluated, checker present
 EXHAUSTIVE_STREAM = True
 ASSUMPTIONS = ["functools.update_wrapper copies __module__, __name__, __qualname__, __doc__, __annotations__, updates __dict__ and sets __wrapped__ (A-update_wrapper; exercised, not modelled)",
                "CPython's object.__new__/object.__init__ excess-argument rule as stated in Stack.lean (A-object_new)"]
+NEIGHBOURS = [{"from": "C19", "limit": 400, "why": "names only reserved when postconditions exist"},
+              {"from": "C03", "limit": 400, "why": "member kinds keep their binding behaviour"},
+              {"from": "C18", "limit": 400, "why": "foreign wrappers"}]
 
 
 def cases(tier, rng):
@@ -29,6 +32,8 @@ def cases(tier, rng):
         for decos in itertools.product(["require", "ensure", "snapshot", "foreign"], repeat=n):
             for a in (False, True):
                 yield "stack", {"dom": "stack", "decos": list(decos), "async": a}
+            if "foreign" in decos and n <= 3:
+                yield "stack-foreign-object", {"dom": "stack", "decos": list(decos), "async": False, "foreignKind": "object"}
     for init in (None, "plain", "args"):
         for new in (False, True):
             for slots in (False, True):
@@ -38,6 +43,11 @@ def cases(tier, rng):
                             for sub in (None, "init_args", "plain", "no_init"):
                                 yield "class", {"dom": "c14class", "spec": {"init": init, "new": new, "slots": slots, "dbc": dbc,
                                                                             "receiver": recv, "abstract": abstract, "sub": sub}}
+                                if abstract and sub:
+                                    # the subclass does not implement the abstract method: it stays abstract
+                                    yield "class", {"dom": "c14class", "spec": {"init": init, "new": new, "slots": slots, "dbc": dbc,
+                                                                                "receiver": recv, "abstract": abstract, "sub": sub,
+                                                                                "sub_leaves_abstract": True}}
     for dbc in (False, True):
         for redecorate in (False, True):
             for dj in (False, True):
@@ -181,7 +191,7 @@ def classify(case, mos, io, fails):
 
 def nontrivial_key(case, mos):
     if case["dom"] == "stack":
-        return (tuple(case["decos"]), case["async"])
+        return (tuple(case["decos"]), case["async"], case.get("foreignKind"))
     if case["dom"] == "c14class":
         return repr(sorted(case["spec"].items(), key=str))
     return ckprop.shape_key(case)
